@@ -23,8 +23,10 @@ type verifStubTimer struct{}
 
 func (verifStubTimer) Stop() bool { return true }
 
+// verifClock keeps the current instant as a nanosecond count (additions only: no
+// multiplication or division by 10^9, which the solver cannot handle).
 type verifClock struct {
-	nowSec   int64
+	nowNs    int64
 	timers   []time.Duration
 	fired    []time.Time
 	nowCalls int
@@ -32,8 +34,8 @@ type verifClock struct {
 
 func (c *verifClock) Now() time.Time {
 	c.nowCalls++
-	c.nowSec += int64(vnd.Int(0, 1000))
-	return time.Unix(c.nowSec, 0)
+	c.nowNs += int64(vnd.Int(0, 1<<40))
+	return time.Unix(0, c.nowNs)
 }
 
 func (c *verifClock) NewContextWithTimeout(parent context.Context, timeout time.Duration) (context.Context, context.CancelFunc) {
@@ -43,12 +45,11 @@ func (c *verifClock) NewContextWithTimeout(parent context.Context, timeout time.
 // NewTimer returns a timer that has already fired, at an instant >= now + d.
 func (c *verifClock) NewTimer(d time.Duration) (clock.Timer, <-chan time.Time) {
 	c.timers = append(c.timers, d)
-	delay := int64(d / time.Second)
-	if delay < 0 {
-		delay = 0
+	if d > 0 {
+		c.nowNs += int64(d)
 	}
-	c.nowSec += delay + int64(vnd.Int(0, 1000))
-	t := time.Unix(c.nowSec, 0)
+	c.nowNs += int64(vnd.Int(0, 1<<40))
+	t := time.Unix(0, c.nowNs)
 	c.fired = append(c.fired, t)
 	ch := make(chan time.Time, 1)
 	ch <- t
@@ -139,11 +140,14 @@ type verifSyncerRig struct {
 func verifNewSyncerRig() *verifSyncerRig {
 	r := &verifSyncerRig{}
 	mb, me, mp := verifPBLBounds()
+	if !vnd.Thorough() {
+		me = 1
+	}
 	r.x = verifNewPBL(mb, me, mp)
 	lock := &sync.RWMutex{}
 	r.src = &verifSource2{bl: r.x.bl, lock: lock}
 	r.store = &verifStateStore{src: r.src, failures: vnd.Choose(3)}
-	r.clk = &verifClock{nowSec: int64(vnd.Int(0, 1<<30))}
+	r.clk = &verifClock{nowNs: int64(vnd.Int(0, 1<<50))}
 	r.logger = &verifErrorLogger{}
 	r.syncFail = vnd.Choose(3)
 	r.minInterval = 10 * time.Second
